@@ -246,7 +246,11 @@ def build(prog):
         b.held["t%d" % k] = t
         b.held["lmi%d" % k] = m
     if prog.get("part"):
-        part = pep.declare_block_partition(d=2)
+        if prog["part"] == 2:
+            from PEPit.block_partition import BlockPartition
+            part = BlockPartition(d=2)                    # the documented direct constructor
+        else:
+            part = pep.declare_block_partition(d=2)
         xx = b.held["x"]
         b0 = part.get_block(xx, 0)
         b1 = part.get_block(b.held["x0"], 1)
